@@ -41,6 +41,9 @@ pub struct Knobs {
     pub exotic_hrefs: bool,
     /// inline elements (em, strong, a, code, span ...) inside `<pre>`, with text after their closing tags
     pub pre_inline: bool,
+    /// whitespace between words is sometimes a non-ASCII space (NBSP, em space, thin space, ideographic space, ogham space),
+    /// alone or next to an ASCII space / at the end of a text
+    pub uspace: bool,
 }
 
 impl Knobs {
@@ -75,6 +78,7 @@ impl Knobs {
             classes_only: false,
             exotic_hrefs: false,
             pre_inline: false,
+            uspace: false,
         }
     }
     pub fn no_css(mut self) -> Knobs {
@@ -194,14 +198,32 @@ impl<'a> Gen<'a> {
         let n = 1 + self.r.b(self.k.max_words);
         for i in 0..n {
             if i > 0 || self.r.p(30) {
-                out.push_str(match self.r.b(5) {
-                    0 => "  ",
-                    1 => "\n",
-                    _ => " ",
-                });
+                if self.k.uspace && self.r.p(15) {
+                    let u: &str = self.r.pick(&["\u{a0}", "\u{2003}", "\u{2009}", "\u{3000}", "\u{1680}", "\u{205f}"]);
+                    match self.r.b(3) {
+                        0 => out.push_str(u),
+                        1 => {
+                            out.push_str(u);
+                            out.push(' ');
+                        }
+                        _ => {
+                            out.push(' ');
+                            out.push_str(u);
+                        }
+                    }
+                } else {
+                    out.push_str(match self.r.b(5) {
+                        0 => "  ",
+                        1 => "\n",
+                        _ => " ",
+                    });
+                }
             }
             let w = self.word();
             out.push_str(&w);
+        }
+        if self.k.uspace && self.r.p(10) {
+            out.push_str(self.r.pick(&["\u{a0}", "\u{2003}", "\u{3000}"]));
         }
         if self.r.p(30) {
             out.push(' ');
@@ -344,11 +366,26 @@ impl<'a> Gen<'a> {
                 let st = if self.r.p(self.k.ol_start) { self.r.pick(&[" start=3", " start=9", " start=-1", " start=98", " start=0", " start=-12", " start=999"]) } else { "" };
                 let ida = self.idattr();
                 out.push_str(&format!("<ol{st}{ida}>"));
-                for _ in 0..1 + self.r.b(4) {
+                // source formatting between the items (whitespace text nodes inside the `ol`), and now and then enough
+                // items for the number column to grow
+                let many = self.r.p(8);
+                let pretty = self.r.p(35);
+                let n_items = if many { 5 + self.r.b(8) } else { 1 + self.r.b(4) };
+                if pretty && self.r.p(60) {
+                    out.push_str("\n  ");
+                }
+                for _ in 0..n_items {
                     let ida = self.idattr();
                     out.push_str(&format!("<li{ida}>"));
-                    self.item_content(d, out);
+                    if many {
+                        self.text(out);
+                    } else {
+                        self.item_content(d, out);
+                    }
                     out.push_str("</li>");
+                    if pretty && self.r.p(80) {
+                        out.push_str(if self.r.p(50) { "\n  " } else { "\n" });
+                    }
                 }
                 out.push_str("</ol>");
             }
@@ -634,6 +671,69 @@ pub fn css_soup(r: &mut R) -> String {
         }
     }
     s
+}
+
+// ---------------------------------------------------------------------------------------------
+// G-misnest: structured mis-nesting.  A formatting element is opened in front of a block element and closed somewhere
+// inside it (`<b><p>a <i>b</i> c</b> d</p>`): the HTML parser's adoption-agency repair then moves the block's children
+// (`reparent_children` in the crate's own tree sink) — with one, two or many children at that moment.
+
+pub fn misnest(r: &mut R, src: &str) -> String {
+    const BLOCKS: [&str; 12] = ["p", "div", "li", "blockquote", "h1", "h2", "h3", "dd", "dt", "td", "pre", "ul"];
+    const FMT: [&str; 10] = ["b", "i", "em", "strong", "s", "code", "u", "a href=\"/0/\"", "del", "font"];
+    let b = src.as_bytes();
+    // positions of start tags of block elements
+    let mut starts: Vec<(usize, &str)> = Vec::new();
+    let mut i = 0;
+    while i < b.len() {
+        if b[i] == b'<' {
+            for name in BLOCKS {
+                let nb = name.as_bytes();
+                if b[i + 1..].starts_with(nb) && matches!(b.get(i + 1 + nb.len()), Some(b'>') | Some(b' ')) {
+                    starts.push((i, name));
+                }
+            }
+        }
+        i += 1;
+    }
+    if starts.is_empty() {
+        return format!("<b><p>{} <i>x</i> y</b> z</p>", src);
+    }
+    let (at, name) = starts[r.u(starts.len())];
+    // the matching end tag: the next `</name>` at depth 0 of the same name
+    let open = format!("<{}", name);
+    let close = format!("</{}>", name);
+    let mut depth = 0i32;
+    let mut j = at + 1;
+    let mut end = src.len();
+    while j < b.len() {
+        if b[j..].starts_with(close.as_bytes()) {
+            if depth == 0 {
+                end = j;
+                break;
+            }
+            depth -= 1;
+        } else if b[j..].starts_with(open.as_bytes()) && matches!(b.get(j + open.len()), Some(b'>') | Some(b' ')) {
+            depth += 1;
+        }
+        j += 1;
+    }
+    // candidate positions for the formatting end tag: tag boundaries strictly inside the block, later ones preferred
+    let inner_start = b[at..].iter().position(|&x| x == b'>').map(|k| at + k + 1).unwrap_or(at + 1).min(end);
+    let mut cands: Vec<usize> = (inner_start..end).filter(|&k| b[k] == b'<' || (k > 0 && b[k - 1] == b'>')).collect();
+    if cands.is_empty() {
+        cands.push(end.min(src.len()));
+    }
+    let k = if r.p(60) { cands[cands.len() - 1 - r.u(cands.len().min(3))] } else { cands[r.u(cands.len())] };
+    let f = FMT[r.u(FMT.len())];
+    let fname = f.split(' ').next().unwrap();
+    let mut out = String::with_capacity(src.len() + 24);
+    out.push_str(&src[..at]);
+    out.push_str(&format!("<{}>", f));
+    out.push_str(&src[at..k]);
+    out.push_str(&format!("</{}>", fname));
+    out.push_str(&src[k..]);
+    out
 }
 
 // ---------------------------------------------------------------------------------------------
